@@ -225,7 +225,7 @@ func (r *Result) Finish(verifDir string, known []KnownFinding, seed int64, wall 
 	}
 	seen := map[string]int{}
 	for _, o := range obls {
-		if o.Status == Discharged && seen[o.Rule] < 3 {
+		if o.Status == Discharged && seen[o.Rule] < 12 {
 			seen[o.Rule]++
 			samples = append(samples, o)
 		}
